@@ -35,9 +35,10 @@ type (
 		F string
 	}
 	SQuant struct {
-		Forall bool
-		Vars   []SVar
-		Body   SExpr
+		Forall   bool
+		Vars     []SVar
+		Body     SExpr
+		Triggers [][]SExpr // optional: forall x T :: {f(x), g(x)} {h(x)} body
 	}
 )
 
@@ -328,8 +329,23 @@ func (p *sparser) expr() SExpr {
 			break
 		}
 		p.expect("::")
+		var trigs [][]SExpr
+		for p.isOp("{") {
+			p.p++
+			var one []SExpr
+			for {
+				one = append(one, p.expr())
+				if p.isOp(",") {
+					p.p++
+					continue
+				}
+				break
+			}
+			p.expect("}")
+			trigs = append(trigs, one)
+		}
 		body := p.expr()
-		return SQuant{fa, vars, body}
+		return SQuant{fa, vars, body, trigs}
 	}
 	return p.iff()
 }
